@@ -472,6 +472,14 @@ impl Space for ScalingPoints {
             }
             off += d;
         }
+        // the auxiliary diagonal entries of sparse-expanded cones are sign-definite: each recorded sign must be
+        // the sign of its own entry (a count of positive signs alone cannot tell a permuted pattern)
+        for t in (n + m)..big {
+            let v = kd.at(t, t);
+            if v != 0.0 {
+                ensure!((v > 0.0) == (snap.dsigns[t] > 0), "dsign-differs-from-sign-of-auxiliary-diagonal-entry", "position {} (auxiliary #{}): entry {:e} but recorded sign {} ({:?})", t, t - n - m, v, snap.dsigns[t], snap.dsigns);
+            }
+        }
         // recorded signs = inertia of the regularised matrix
         let eps = if self.static_reg { snap.diagonal_regularizer } else { 0.0 };
         let mut reg = kd.clone();
@@ -511,7 +519,26 @@ pub fn spaces(tier: &str, _seed: u64) -> Vec<Box<dyn Space>> {
             v.push(Box::new(Assembly { cones: l.clone(), n }));
         }
     }
+    // lists that mix the two kinds of sparse-expanded cone (auxiliary blocks of different sizes: 2 for a large
+    // second-order cone, 3 for a generalised power cone) in every order; they exceed the row cap of the lists above
+    let gp = || GenPow(vec![0.5, 0.5], 1);
+    let mixed: Vec<Vec<ConeSpec>> = vec![
+        vec![gp(), SOC(5)],
+        vec![SOC(5), gp()],
+        vec![SOC(5), gp(), SOC(6)],
+        vec![gp(), SOC(5), gp()],
+        vec![gp(), GenPow(vec![0.2, 0.3, 0.5], 2), SOC(5)],
+        vec![SOC(6), SOC(5), gp()],
+        vec![NN(1), gp(), Zero(1), SOC(5)],
+    ];
+    for l in &mixed {
+        for n in 1..=(if thorough { 2 } else { 1 }) {
+            v.push(Box::new(Assembly { cones: l.clone(), n }));
+        }
+    }
     let sp_lists: Vec<Vec<ConeSpec>> = vec![
+        vec![SOC(5), GenPow(vec![0.5, 0.5], 1)],
+        vec![GenPow(vec![0.5, 0.5], 1), SOC(5), GenPow(vec![0.2, 0.3, 0.5], 2)],
         vec![NN(2), SOC(3)],
         vec![SOC(5)],
         vec![SOC(6), SOC(5), NN(1)],
